@@ -137,6 +137,15 @@ fn pattern(p: u32) -> &'static [u8] {
     }
 }
 
+/// the multiplication-overflow values (OVals4 / OVals8 of Parser.tla), as TLC printed them
+static OVALS: std::sync::OnceLock<(Vec<Vec<u8>>, Vec<Vec<u8>>)> = std::sync::OnceLock::new();
+
+fn oval(w: u32, v: u32) -> &'static [u8] {
+    let t = OVALS.get().expect("c15: the generator output has no overflow value table");
+    let tab = if w == 8 { &t.1 } else { &t.0 };
+    &tab[v as usize - 1]
+}
+
 fn subst_val(k: u32, old: u8) -> u8 {
     match k {
         1 => 0,
@@ -168,6 +177,16 @@ fn apply(e: &[u8], d: &Desc) -> Vec<u8> {
             r[off..off + pat.len()].copy_from_slice(pat);
             if d.kind == b'c' {
                 r.truncate(d.a[3] as usize);
+            }
+            r
+        }
+        b'o' | b'u' | b'p' => {
+            let mut r = e.to_vec();
+            let off = d.a[0] as usize;
+            let val = oval(d.a[1], d.a[2]);
+            r[off..off + val.len()].copy_from_slice(val);
+            if d.kind == b'p' {
+                r[off + 8..off + 16].copy_from_slice(val);
             }
             r
         }
@@ -241,7 +260,7 @@ fn load_generated(p: &Path, only_len: Option<usize>, want_raw: bool) -> Generate
                 let l = v["len"].as_u64().unwrap() as usize;
                 g.win = v["win"].as_u64().unwrap_or(64);
                 let mut by_kind = BTreeMap::new();
-                for k in ["b", "t", "s", "m", "a", "c"] {
+                for k in ["b", "t", "s", "m", "a", "c", "o", "p", "u"] {
                     let ds: Vec<Desc> = v[k].as_array().map(|a| a.iter().map(desc_from_json).collect()).unwrap_or_default();
                     by_kind.insert(k.as_bytes()[0], ds);
                 }
@@ -252,6 +271,12 @@ fn load_generated(p: &Path, only_len: Option<usize>, want_raw: bool) -> Generate
                 g.raw_descs = v["r"].as_array().unwrap().iter().map(desc_from_json).collect();
             }
             "apply" => g.apply_check = Some(v),
+            "ovals" => {
+                let tab = |k: &str| -> Vec<Vec<u8>> {
+                    v[k].as_array().unwrap().iter().map(|b| b.as_array().unwrap().iter().map(|x| x.as_u64().unwrap() as u8).collect()).collect()
+                };
+                let _ = OVALS.set((tab("v4"), tab("v8")));
+            }
             _ => {}
         }
     }
@@ -1807,7 +1832,7 @@ fn setup(name: &str, pl: &[Vec<u8>], want_encs: bool, cur: Option<&Enc>, tmp: &P
 
 // ------------------------------------------------------------------ job plan (same in parent and child)
 
-const KINDS: [u8; 6] = [b'b', b't', b's', b'm', b'a', b'c'];
+const KINDS: [u8; 9] = [b'b', b't', b's', b'm', b'a', b'c', b'o', b'p', b'u'];
 /// expected-length arguments: the right one, 0, 1 (below the stream count of the parallel coders),
 /// one less, one more, 2^31, usize::MAX
 const VARIANTS: [&str; 7] = ["exact", "zero", "one", "minus1", "plus1", "p31", "max"];
@@ -1852,6 +1877,18 @@ fn plan(def: &PDef, enc: Option<&Enc>, g: &Generated, thorough: bool) -> Vec<Seg
                     // thorough: for the decoders with an expected-length argument under "exact" and "p31" only
                     if k == b'c' && def.slow() && (!thorough || (def.olen && variant != "exact" && variant != "p31")) {
                         continue;
+                    }
+                    // overflow values (o: one aligned field, p: two adjacent fields, u: unaligned offsets):
+                    // the 20-50 ms-per-call parsers take no unaligned offsets; the file-backed ones take o / p in the
+                    // quick tier for their first encoding only, the slow decoders under "exact" (thorough: and "p31")
+                    if k == b'u' && def.slow() {
+                        continue;
+                    }
+                    if (k == b'o' || k == b'p') && def.slow() {
+                        let skip = if def.olen { variant != "exact" && !(thorough && variant == "p31") } else { !thorough && e.id != "e1" };
+                        if skip {
+                            continue;
+                        }
                     }
                     let n = cd.by_kind.get(&k).map(|v| v.len()).unwrap_or(0);
                     segs.push(Seg { variant, kind: k, start: pos, count: n, len: l, combo: cd.combo.clone() });
